@@ -11,10 +11,13 @@ from harness.common import tla
 
 def in_scope(t):
     """Runs the engine model covers: default scheduler, direct DAG, one execution per task name, no
-    policies / items / sub-workflows, no operator commands, duplicates or faults."""
+    policies / items / sub-workflows; operator commands pause / resume / stop and redeliveries are covered,
+    rerun / skip and executor faults are not."""
     p = t['prog']
     m = t['meta']
-    if m['scheduler'] != 'default' or m.get('ops') or m.get('dups') or m.get('c20') or p['type'] != 'direct':
+    if m['scheduler'] != 'default' or m.get('c20') or p['type'] != 'direct':
+        return False
+    if any(o['op'] not in ('pause', 'resume', 'stop') for o in (m.get('ops') or [])):
         return False
     if p['flags'].get('multi_trigger') or p['flags'].get('sub') or p['flags'].get('items') or p['flags'].get('retry') or p['flags'].get('policy'):
         return False
@@ -26,9 +29,7 @@ def in_scope(t):
     # a task name must not be instantiated twice (e.g. the same target named by on-success and on-complete)
     last = t['steps'][-1]['obs']
     names = [x['name'] for x in last['tk']]
-    axt = [a['task'] for a in last['ax']]
-    # (a task that ran two actions - the re-armed join of KF-C04-1 - is not representable either)
-    return len(names) == len(set(names)) and len(axt) == len(set(axt))
+    return len(names) == len(set(names))
 
 
 def def_tla(prog):
@@ -36,25 +37,32 @@ def def_tla(prog):
     return tla(d)
 
 
-def model_check(d, name, prog, liveness=False, timeout=1800, confluence=False):
+INVARIANTS = ['TypeOK', 'NoHangM', 'NoWaitingAtRestM', 'JoinOnceM', 'StartOnceM']
+PROPERTIES = ['JoinGateM', 'FinishedFrozenM', 'ResultOnceM', 'SuccessStickyM', 'LegalWfM', 'NoNewTasksWhilePausedM', 'NoNewTasksAfterStopM',
+              'PauseAckM', 'StopAckM', 'DupNoEffectM']
+
+
+def model_check(d, name, prog, liveness=False, timeout=1800, confluence=False, ops=0, dups=0, workers=None,
+                kinds=('pause', 'resume', 'stop')):
     for f in ('MistralEngine.tla',):
         shutil.copy(os.path.join(common.SPEC, 'engine', f), d)
     mc = 'MC_Engine_' + re.sub(r'\W', '_', name)
     with open(os.path.join(d, mc + '.tla'), 'w') as fh:
         fh.write('---- MODULE %s ----\nEXTENDS MistralEngine\nDConst == %s\nMCInit == D = DConst /\\ Init /\\ TLCSet(1, <<>>)\n'
-                 'MCSpec == MCInit /\\ [][Next]_vars\nMCFairSpec == MCSpec /\\ WF_vars(Next)\n====\n' % (mc, def_tla(prog)))
+                 'MCSpec == MCInit /\\ [][Next]_vars\nMCFairSpec == MCSpec /\\ WF_vars(Next)\nTimeBound == now <= 20 /\\ InDomain\nMCOpKinds == %s\n====\n' % (mc, def_tla(prog), tla(set(kinds))))
+    consts = 'CONSTANT OpBudget = %d\nCONSTANT DupBudget = %d\nCONSTANT NoopOps = FALSE\nCONSTANT OpKinds <- MCOpKinds\n' % (ops, dups)
     with open(os.path.join(d, mc + '.cfg'), 'w') as fh:
-        fh.write('SPECIFICATION %s\nVIEW view\nINVARIANT TypeOK\nINVARIANT NoHangM\nINVARIANT NoWaitingAtRestM\nINVARIANT JoinOnceM\n'
-                 'INVARIANT JoinGateM\nPROPERTY FinishedFrozenM\n%sCHECK_DEADLOCK FALSE\n'
-                 % ('MCFairSpec' if liveness else 'MCSpec', 'PROPERTY Terminates\n' if liveness else ''))
+        fh.write('SPECIFICATION %s\nVIEW view\nCONSTRAINT TimeBound\n%s%s%s%sCHECK_DEADLOCK FALSE\n'
+                 % ('MCFairSpec' if liveness else 'MCSpec', consts, ''.join('INVARIANT %s\n' % i for i in INVARIANTS),
+                    ''.join('PROPERTY %s\n' % p_ for p_ in PROPERTIES), 'PROPERTY Terminates\n' if liveness else ''))
     if confluence:
         with open(os.path.join(d, mc + '.cfg'), 'w') as fh:
-            fh.write('SPECIFICATION MCSpec\nVIEW view\nINVARIANT Confluent\nCHECK_DEADLOCK FALSE\n')
+            fh.write('SPECIFICATION MCSpec\nVIEW view\n%sINVARIANT Confluent\nCHECK_DEADLOCK FALSE\n' % consts)
         return common.run_tlc(os.path.join(d, mc + '.tla'), os.path.join(d, mc + '.cfg'), timeout=timeout, metatag=mc, workers=1)
-    return common.run_tlc(os.path.join(d, mc + '.tla'), os.path.join(d, mc + '.cfg'), timeout=timeout, metatag=mc)
+    return common.run_tlc(os.path.join(d, mc + '.tla'), os.path.join(d, mc + '.cfg'), timeout=timeout, metatag=mc, workers=workers)
 
 
-def strict_validate(d, traces, tag='strict', chunk=200):
+def strict_validate(d, traces, tag='strict', chunk=200, dump=False):
     """Returns (accepted set of indexes into traces, reached dict, states, transitions)."""
     for f in ('MistralEngine.tla', 'EngineTrace.tla'):
         shutil.copy(os.path.join(common.SPEC, 'engine', f), d)
@@ -75,8 +83,11 @@ def strict_validate(d, traces, tag='strict', chunk=200):
             fh.write('---- MODULE MC_EngineTrace_%s_%d ----\nEXTENDS EngineTrace\n====\n' % (tag, k))
         cfgp = mod[:-4] + '.cfg'
         with open(cfgp, 'w') as fh:
-            fh.write('SPECIFICATION TSpec\nCONSTRAINT Report\nCHECK_DEADLOCK FALSE\n')
+            fh.write('SPECIFICATION TSpec\nCONSTANT OpBudget = 1000\nCONSTANT DupBudget = 1000\nCONSTANT NoopOps = TRUE\nCONSTANT OpKinds <- AllOpKinds\nCONSTRAINT %s\nCHECK_DEADLOCK FALSE\n'
+                     % ('DumpReport' if dump else 'Report'))
         r = common.run_tlc(mod, cfgp, workers=1, env={'TRACE_FILE': tf}, timeout=3000, metatag='engstrict%s%d' % (tag, k), heap='3g')
+        if dump:
+            open(os.path.join(d, 'strict_%s_%d.out' % (tag, k)), 'w').write(r.out)
         if not r.finished:
             raise common.MachineryError('EngineTrace did not finish:\n' + r.out[-3000:])
         a = set(k * chunk + int(m.group(1)) - 1 for m in re.finditer(r'<<"accepted", (\d+)>>', r.out))
